@@ -44,11 +44,11 @@ PROPS = {
         level_text="Proved for every reachable model state and script: Commit at an anti-MEV height only after own PreCommit, M current-view pre-commits and a successful pre-block callback; the pre-block callback only with M pre-commits and at most once; the final block is built only after it; PreCommit only when enabled; a received PreCommit is not acted upon when disabled.",
         level_note="proved on the whole model except 'signed only after' (the build gate is proved; signing follows building in makeCommit)"),
     "C08": dict(family="node", level="other", title="Fault-free synchronous runs decide in view 0",
-        level_text="A statement about synchronous multi-node runs; no Coq theorem. Decided by running the real library in a synchronous scheduler with arbitrary in-round orders, duplicates and early deliveries (sync mode c08) with monitors; model tied by correspondence.",
-        level_note="exploration of synchronous schedules on the real code; no theorem"),
+        level_text="A statement about synchronous multi-node runs. Proved (every state): a payload that reaches a node before it has entered its height or view is kept and has no other effect. The property itself is decided by running the real library in a synchronous scheduler with arbitrary in-round orders, duplicates and early deliveries (sync mode c08) with monitors; model tied by correspondence.",
+        level_note="exploration of synchronous schedules on the real code; node-level lemma (early payloads kept) proved"),
     "C09": dict(family="node", level="other", title="Recovery liveness",
-        level_text="A liveness statement about multi-node runs; no Coq theorem. Decided by runs of the real library with silent nodes, partitions healed at arbitrary moments and restarts (sync modes c09s/c09p/c09r/c09x) with progress monitors; known finding D18.",
-        level_note="exploration on the real code; no theorem"),
+        level_text="A liveness statement about multi-node runs. Proved (every state): a committed node answers every RecoveryRequest with a recovery message carrying its Commit and the preparations it holds. The property itself is decided by runs of the real library with silent nodes, partitions healed at arbitrary moments and restarts (sync modes c09s/c09p/c09r/c09x) with progress monitors; known finding D18.",
+        level_note="exploration on the real code; node-level lemma (recovery requests answered) proved"),
     "C10": dict(family="node", level="proof", title="No lost wake-up",
         level_text="Proved over all histories of the model (Start, then any calls, any scripts under which the node is a non-watch-only validator): after every call an undecided node has the timer armed for exactly its height and view (timer as ghost of the history); a timeout for that epoch re-arms it; every arming names the current epoch. The non-negative-duration clause is false of the code at high views (known finding D10).",
         level_note="proved except the duration sign (known finding D10)"),
